@@ -448,8 +448,8 @@ def run(ctx):
         replay_case(ctx, batch, c)
     gt_edge_cases(ctx)
 
-    n_small = (260 if ctx.quick else 3000) * ctx.scale
-    n_large = (140 if ctx.quick else 1500) * ctx.scale
+    n_small = (400 if ctx.quick else 3000) * ctx.scale
+    n_large = (220 if ctx.quick else 1500) * ctx.scale
     for k in range(n_small):
         ped = None
         case = G.gen_instance(rng, ped=ped, max_cov=rng.choice([2, 3, 4]), big_q=(k % 7 == 0), uncovered_ok=(k % 3 != 0))
@@ -491,7 +491,7 @@ def run(ctx):
 
     import time
     ctx.extra["library_part_s"] = round(time.time() - ctx.t0, 1)
-    n_cli = (5 if ctx.quick else 30) * ctx.scale
+    n_cli = (8 if ctx.quick else 30) * ctx.scale
     for k in range(n_cli):
         cli_case(ctx, rng, k, big=(not ctx.quick and k % 4 == 0))
     shutil.rmtree(ctx.workdir(), ignore_errors=True)
